@@ -9,6 +9,8 @@ import VC2.Model.FileFormatDriver
 import VC2.Model.CodecCsvDriver
 import VC2.Model.AutofillDriver
 import VC2.Model.SerdesDriver
+import VC2.Model.PictureDriver
+import VC2.Model.SliceFitDriver
 open VC2 VC2.Gen
 
 def parseInts (ws : List String) : Option (List Int) :=
@@ -41,6 +43,9 @@ def step (line : String) : String :=
   | "ci" :: rest => VC2.Model.CodecCsv.handleCi rest
   | "af" :: rest => VC2.Model.Autofill.handleAf rest
   | "sd" :: rest => VC2.Model.Serdes.handleSd rest
+  | "fr" :: rest => VC2.Model.Picture.handleFr rest
+  | "sl" :: rest => VC2.Model.SliceFit.handleSl rest
+  | "dc" :: rest => VC2.Model.Picture.handleDc rest
   | "ff" :: rest => VC2.Model.FileFormat.handleFf rest
   | "vs" :: rest => VC2.Model.Constraint.handleVs rest
   | "ct" :: rest => VC2.Model.Constraint.handleCt rest
